@@ -115,33 +115,37 @@ def run(chk, tier):
     else:
         chk.bad("R17.4", "is_bound is the disjunction", "is_bound's decision table is %s" % sorted(tab), ib.file)
     nb = F.body("<rscel::utils::ident_filter::IdentFilterIter<'a> as std::iter::Iterator>::next")
-    qn = mirq.BodyQ(nb)
-    isb = qn.call_sites(r"BindContext::<'a>::is_bound$")
-    okn = False
-    if len(isb) == 1:
-        # the element is returned exactly on the `false` edge of is_bound
-        cur = isb[0][1]["t"]
-        sw = None
-        for _ in range(6):
-            t2 = nb.blocks[cur]["term"]
-            if t2 and t2["k"] == "switch":
-                sw = t2
-                break
-            s_ = nb.succs(cur)
-            if len(s_) != 1:
-                break
-            cur = s_[0]
-        if sw:
-            zero = [c[1] for c in sw["cases"] if int(c[0]) == 0]
-            f_edge = zero[0] if zero else sw["otherwise"]
-            t_edge = sw["otherwise"] if zero else [c[1] for c in sw["cases"] if int(c[0]) == 1][0]
-            some_on_false = any(i in qn.reach(f_edge, blocked={isb[0][0]}) for i, _, v, _ in qn.aggregates(adt_suffix="option::Option") if v == "Some")
-            some_on_true = any(i in qn.reach(t_edge, blocked={isb[0][0]}) for i, _, v, _ in qn.aggregates(adt_suffix="option::Option") if v == "Some")
-            okn = some_on_false and not some_on_true
+    # decision table of next() over an underlying iterator of two names (symbolic execution): the first name that is not bound, else None
+    import symex as _sx, semtables as _st
+    ia = [a_ for a_ in F.adts.values() if a_["path"] == "rscel::utils::ident_filter::IdentFilterIter"][0]
+
+    class FilterPolicy(_st.LogicPolicy):
+        def limit_for(self, body, blk):
+            return 8
+
+        def stub(self, interp, st, path, c, args, t, caller):
+            if path.endswith("::is_bound"):
+                return [(st, ("call", "is_bound", (args[1],), "bool"))]
+            return None
+    st0 = _sx.State()
+    c2 = st0.fresh()
+    st0.heap[c2] = ("iter", "seq", ((_sx.U("n0"), _sx.U("n1")), 0))
+    flds = tuple(("ptr", c2) if f_["name"] == "iter" else _sx.U(f_["name"]) for f_ in ia["variants"][0]["fields"])
+    c1 = st0.fresh()
+    st0.heap[c1] = _sx.adt(ia["path"], "IdentFilterIter", flds)
+    got_f = set()
+    try:
+        for st_, r_ in _sx.Interp(F, FilterPolicy()).run(nb, [("ptr", c1)], state=st0):
+            conds_ = tuple((str(c[1]), "T" if c[0] == "ne" else "F") for c in st_.cond if c[0] in ("eq", "ne") and "is_bound(" in str(c[1]))
+            got_f.add((conds_, _sx.render(_sx.deep(st_, r_))))
+    except Exception as e_:
+        got_f.add(("could not be executed symbolically: %s" % str(e_)[:80],))
+    want_f = {((("is_bound(n0)", "F"),), "Option::Some(n0)"), ((("is_bound(n0)", "T"), ("is_bound(n1)", "F")), "Option::Some(n1)"), ((("is_bound(n0)", "T"), ("is_bound(n1)", "T")), "Option::None")}
+    okn = got_f == want_f
     if okn:
         chk.ok("R17.4", "IdentFilterIter yields exactly the unbound names")
     else:
-        chk.bad("R17.4", "IdentFilterIter yields exactly the unbound names", "IdentFilterIter::next must return a name iff is_bound(name) is false", nb.file)
+        chk.bad("R17.4", "IdentFilterIter yields exactly the unbound names", "IdentFilterIter::next over the names (n0, n1) must yield the first name that is not bound, else None; found %s" % sorted(map(str, got_f)), nb.file)
     wb = [b for b in F.bodies.values() if b.pkg == "rscel_wasm" and b.path.endswith("cel_details")]
     if len(wb) == 1:
         ex = mirq.call_exprs(mirq.BodyQ(wb[0]), drop=None)
